@@ -47,8 +47,16 @@ def build_nfa(spec):
         delta = defaultdict(set)
     else:
         delta = {}
+    shared = {}
     for q, a, T in spec['delta']:
-        delta[q, a] = _set(T)
+        if spec.get('alias'):
+            # legal but unusual: equal target sets are ONE set object (e.g. built with dict.fromkeys)
+            key = tuple(sorted(T))
+            if key not in shared:
+                shared[key] = _set(T)
+            delta[q, a] = shared[key]
+        else:
+            delta[q, a] = _set(T)
     if not spec.get('dd', True):
         # a plain dict must be total for the library's N.delta[q, eps] reads
         for q in spec['Q']:
@@ -60,8 +68,15 @@ def build_nfa(spec):
 
 def build_pda(spec):
     delta = defaultdict(set)
+    shared = {}
     for p, a, u, T in spec['delta']:
-        delta[p, a, u] = _set(tuple(t) for t in T)
+        if spec.get('alias'):
+            key = tuple(sorted(map(tuple, T)))
+            if key not in shared:
+                shared[key] = _set(tuple(t) for t in T)
+            delta[p, a, u] = shared[key]
+        else:
+            delta[p, a, u] = _set(tuple(t) for t in T)
     return PDA(_set(spec['Q']), _set(spec['Sigma']), _set(spec['Gamma']), delta, spec['q0'], _set(spec['F']), spec['eps'])
 
 
